@@ -426,6 +426,8 @@ def judge_valid(ctx: Ctx, d, r):
                       {'surface': 'file', 'design': d, 'exc': r['exc'], 'msg': r['msg'], 'critical': r['critical']})
     else:
         ctx.nontriv(('valid', common.sha(d)))
+        if d.get('merged'):
+            ctx.count('valid_two_strands_' + ('two_contigs' if d.get('extra_contigs') else 'one_contig'))
         if d.get('clone_contig'):
             ctx.count('valid_two_annotated_contigs')
             if r.get('twin_problems'):
@@ -444,9 +446,32 @@ def base_design(rng, i):
 def valid_design(rng, i):
     if i % 4 == 3:
         return gen.gen_cdna(rng, {'p_table': 0.2})
+    if i % 8 == 1:
+        # two valid designs in one run: a gene on each strand, on one contig (one after the other) or on two contigs
+        parts = []
+        for strand in '+-':
+            for _ in range(60):
+                p = valid_design_one(rng, 2, strand)
+                # with --gff the tool asserts a transcript for every contig and strand that has targetons: both parts annotated or neither
+                if not p.get('clone_contig') and (not parts or bool(p.get('gtf')) == bool(parts[0].get('gtf'))):
+                    break
+            p['extra_contigs'] = {}
+            for f in p.get('vcfs') or []:
+                f['records'] = [r for r in f['records'] if r.get('contig', p['contig']) == p['contig']]
+            parts.append(p)
+        from .. import merge
+        d = merge.merge_designs(parts[0], parts[1], same_contig=rng.random() < 0.6)
+        d['merged'] = True
+        return d
+    return valid_design_one(rng, i, None)
+
+
+def valid_design_one(rng, i, strand):
     focus = {'p_bg': 0.35, 'p_custom': 0.5, 'p_pam': 0.7, 'p_gtf': 0.85, 'p_table': 0.15, 'allow_short_cds': True, 'allow_junction_pam': True,
              'bg_kinds': ['snv', 'snv', 'ins', 'del', 'mnv'], 'p_mask': 0.2, 'exon_lens': rng.choice([[4, 5, 6, 7, 9, 12, 17, 21, 30, 31, 32, 45], [2, 3, 4, 5, 8]]),
              'n_exons': rng.choice([1, 2, 3, 4])}
+    if strand:
+        focus['strand'] = strand
     for _ in range(20):
         d = gen.gen_sge(rng, focus)
         # a background deletion that removes an end of a targeton or of a region leaves nothing to design there: not a valid design
